@@ -8,6 +8,7 @@ package main
 // handshake must complete (which also checks the script against the implementation).
 
 import (
+	"bytes"
 	"crypto/cipher"
 	"crypto/ecdsa"
 	"crypto/hmac"
@@ -244,6 +245,20 @@ func (s *scriptGM) run(how string, cert *gmtls.Certificate) string {
 		s.encrypting = true
 		s.rec(23, []byte("early"))
 		s.rec(22, fin())
+	case "fin_trailing1", "fin_trailing20", "fin_short":
+		// the right verify_data followed by further bytes (handshake length 13 / 32), or only its first 11 bytes
+		vd := prfGM(s.master, "client finished", sm3.Sm3Sum(s.transcript), 12)
+		switch how {
+		case "fin_trailing1":
+			vd = append(vd, 0)
+		case "fin_trailing20":
+			vd = append(vd, bytes.Repeat([]byte{0x5a}, 20)...)
+		default:
+			vd = vd[:11]
+		}
+		s.rec(20, []byte{1})
+		s.encrypting = true
+		s.rec(22, hsMsg(20, vd))
 	default:
 		s.rec(20, []byte{1})
 		s.encrypting = true
